@@ -121,9 +121,9 @@ func JS(ops []Op) string {
 			// never come back
 			b.WriteString("var c__ = {}; c__.self = c__; _.bindings[\"?x\"] = c__; _.bindings[\"k\"] = c__; return _.bindings;\n")
 		case "matchdeep":
-			// (extended interpreter) the matcher is handed a value nested a million deep: every recursive reader of it
+			// (extended interpreter) the matcher is handed a value nested 150,000 deep (the drivers run with a 64 MB stack limit, see stepdrv): every recursive reader of it
 			// (the JSON encoder first) would exhaust the stack, which ends the process
-			b.WriteString("var d__ = []; for (var i__ = 0; i__ < 1000000; i__++) { d__ = [d__]; } _.match(d__, {}, {});\n")
+			b.WriteString("var d__ = []; for (var i__ = 0; i__ < 150000; i__++) { d__ = [d__]; } _.match(d__, {}, {});\n")
 		case "retdeepshared":
 			// one nested value used twice in what is returned, the second time deep inside: with mach.MaxDepth (60) as the
 			// interpreter's limit the first use is within the limit and the second is not
